@@ -386,15 +386,23 @@ func deriveOpts(maxW, maxCombs, mutW int, sem bool, layouts []int) core.TLCOpts 
 	return core.TLCOpts{Module: "MC_TLDerive", Cfg: "MC_TLDerive.cfg", Timeout: 14 * time.Minute, HeapMB: 6144, Consts: m}
 }
 
-const nLayouts = 7
+const nLayouts = 10
+
+// focusOpts: the arithmetic-focus enumeration: every position of the grammar that takes arithmetic x all layouts
+// (incl. the parenthesised operand spellings) x ALL single-token mutations and operand edits.
+func focusOpts() core.TLCOpts {
+	o := deriveOpts(0, 1, 1, false, []int{1, 2, 3, 4, 5, 6, 7, 8, 9, 10})
+	o.Consts["FOCUS"] = "TRUE"
+	return o
+}
 
 // layoutsFor: the thorough tier applies all layouts; the quick tier the plain one and one chosen by the seed
-// (seeds 1..6 together cover all of them).
+// (seeds 1..9 together cover all of them).
 func layoutsFor(c *core.Ctx) []int {
 	if c.Thorough() {
-		return []int{1, 2, 3, 4, 5, 6, 7}
+		return []int{1, 2, 3, 4, 5, 6, 7, 8, 9, 10}
 	}
-	k := int((c.Seed%6 + 6) % 6)
+	k := int((c.Seed%9 + 9) % 9)
 	return []int{1, 2 + k}
 }
 
@@ -464,7 +472,8 @@ func runC19(c *core.Ctx) error {
 		jobs = append(jobs, mcJob{"tokens<=2_full", tokOpts(2, false, false, 1)}, mcJob{"tokens<=3_core", tokOpts(3, true, true, 1)})
 	}
 	// (iii) derived sentences (accepted, AST of the derivation) and their mutation neighbours
-	jobs = append(jobs, mcJob{"derived+mutants", deriveOpts(c.Pick(3, 4), 1, c.Pick(2, 4), false, layoutsFor(c))})
+	jobs = append(jobs, mcJob{"derived+mutants", deriveOpts(c.Pick(3, 4), 1, c.Pick(2, 4), false, layoutsFor(c))},
+		mcJob{"arithmetic_focus+mutants", focusOpts()})
 	// (iv) token soups: seeded random walks of the token-string model (TLC evaluates every successor of every
 	// visited state, so all of them are cases: lengths 1..40)
 	o := tokOpts(40, false, false, 1)
@@ -490,7 +499,7 @@ func runC19(c *core.Ctx) error {
 			return fmt.Errorf("vacuous: no case of specified class %q was exercised", cls)
 		}
 	}
-	for _, ph := range []string{"laid", "mut:delete", "mut:dup", "mut:swap", "mut:trunc", "mut:replace", "mut:insert", "tok", "lex"} {
+	for _, ph := range []string{"laid", "mut:delete", "mut:dup", "mut:swap", "mut:trunc", "mut:replace", "mut:insert", "mut:operand", "tok", "lex"} {
 		if st.byPhase[ph] == 0 {
 			return fmt.Errorf("vacuous: no case of phase %q", ph)
 		}
